@@ -102,5 +102,6 @@ std::string history(std::string const& label, T& a, T& a2, T& b, Beh beh, bool b
 std::string runOptimizer(std::string const& label, bool binary);
 std::string runModel(std::string const& label, bool binary);   // c18_models.cpp
 std::string runMoo(std::string const& label, bool binary);     // c18_moo.cpp
+std::string runMisc(std::string const& label, bool binary);    // c18_moo.cpp
 }
 #endif
